@@ -36,6 +36,8 @@ Problems ==
              \cup (IF AckOf(r) = "ok" /\ FALSE \in Effects(r) THEN {<<"acknowledged-but-lost", r.req, "ok">>} ELSE {})
              \cup (IF AckOf(r) = "err" /\ TRUE \in Effects(r) THEN {<<"reported-failed-but-applied", r.req, "err">>} ELSE {})
            : r \in ToSet(Ev.workload)}
+      \* once acknowledged the effect is visible to every later query (three queries on the reader pool right after the reply)
+      \cup {<<"acknowledged-but-not-visible", a.req, "ok">> : a \in {x \in ToSet(Ev.acks) : x.res = "ok" /\ x.visible = "no"}}
       \cup {<<"log-differs-from-content", e, d>> : <<e, d>> \in {x \in {"A", "B"} \X Days : LogN(x[1], x[2]) # Expect(x[1], x[2])}}
       \cup (IF \E g \in ToSet(S.log) : g.dirty THEN {<<"mark-left-after-restart", "log", "dirty">>} ELSE {})
       \* a failing statement must not wedge the instance: it runs to the end, and sequential requests fail one batch at most
